@@ -189,6 +189,18 @@ def run(c):
         def pick():
             return {"entries": r.sample(cands, r.randint(0, 3)), "root": r.random() < 0.1}
         cc.append({"id": i, "kind": "cascade", "dir": farm, "W": pick(), "R": pick(), "S": pick(), "B": pick(), "path": r.choice(names)})
+    # histories on one path name whose link is re-pointed between the queries: every answer is about where the name leads NOW
+    os.makedirs(farm + "/t1")
+    os.makedirs(farm + "/t2")
+    open(farm + "/t1/f", "w").close()
+    open(farm + "/t2/f", "w").close()
+    os.symlink("t1", farm + "/flip")
+    fl_c = [farm + x for x in ["/t1/*", "/t2/*", "/t1/f", "/t2/"]]
+    for i in range(80 if c.quick() else 800):
+        def pick2():
+            return {"entries": r.sample(fl_c, r.randint(0, 2)), "root": False}
+        cc.append({"id": len(cc), "kind": "cascade", "dir": farm, "W": pick2(), "R": pick2(), "S": pick2(), "B": pick2(), "path": farm + "/flip/f",
+                   "relink": [farm + "/flip", r.choice(["t1", "t2", "t1", "t2", "nowhere"])]})
     co = c.run_harness(exe, cc)
     items = []
     for x, o in zip(cc, co):
